@@ -1,7 +1,7 @@
 SPECIFICATION Spec
 CONSTANT CoverL1 <- AllL
 CONSTANT CoverM1 <- AllM
-CONSTANT CoverL2 <- QuickL
+CONSTANT CoverL2 <- AllL
 CONSTANT CoverM2 <- MidM
 INVARIANT StaysValid
 INVARIANT ClassExact
